@@ -900,11 +900,22 @@ def reuse_names(rnd, f, pool=("v", "v_0", "v_1", "w", "w_0", "x1")):
             scope2.add(nv)
             nmx = None
             if mx is not None:
+                last = [nv]
+
                 def mxgo(elems):
                     out = []
                     for e in elems:
                         if e[0] == "bind":
-                            nb = choose(e[1], scope2) or e[2]
+                            # siblings bound by ONE quantifier that differ by the suffix a renaming would add (x and
+                            # x_0): renaming x must not land on its sibling
+                            sib = last[0] + "_0"
+                            if (sib in pool and sib not in scope2 and name_type.get(sib, e[1]) == e[1]
+                                    and name_type.get(last[0]) == e[1] and chance(rnd, 0.5)):
+                                nb = sib
+                                name_type[nb] = e[1]
+                            else:
+                                nb = choose(e[1], scope2) or e[2]
+                            last[0] = nb
                             m2[e[2]] = nb
                             scope2.add(nb)
                             out.append(["bind", e[1], nb])
